@@ -77,6 +77,11 @@ TARGETS = [
     ("pams/market.py", "Market", "convert_to_price"),
     ("pams/market.py", "Market", "remain_executable_orders"),
     ("pams/market.py", "Market", "_update_market_price"),
+    ("pams/events/base.py", "EventHook", "__init__"),
+    ("pams/events/price_limit_rule.py", "PriceLimitRule", "hook_registration"),
+    ("pams/events/trading_halt_rule.py", "TradingHaltRule", "hook_registration"),
+    ("pams/events/order_mistake_shock.py", "OrderMistakeShock", "hook_registration"),
+    ("pams/events/fundamental_price_shock.py", "FundamentalPriceShock", "hook_registration"),
     ("pams/events/price_limit_rule.py", "PriceLimitRule", "get_limited_price"),
     ("pams/events/price_limit_rule.py", "PriceLimitRule", "hooked_before_order"),
     ("pams/events/trading_halt_rule.py", "TradingHaltRule", "hooked_after_execution"),
